@@ -50,12 +50,15 @@ def gen_script(rng, odd):
             for _ in range(rng.randrange(1, 3)):
                 l.append(rng.choice(PATS[rng.choice(lk)]))
         nodes.append((list(dict.fromkeys(g)), list(dict.fromkeys(l))))
-    # GNU ld rejects a pattern that occurs twice anywhere in the script
-    seen = set()
+    # GNU ld rejects a pattern that occurs both in a `global:` and in a `local:` list (anywhere in the script);
+    # repeating it among the global lists of several nodes, or among the local lists, is fine
+    in_g, in_l = set(), set()
     out = []
     for g, l in nodes:
-        g2 = [p for p in g if not (p in seen or seen.add(p))]
-        l2 = [p for p in l if not (p in seen or seen.add(p))]
+        g2 = [p for p in g if p not in in_l]
+        in_g.update(g2)
+        l2 = [p for p in l if p not in in_g]
+        in_l.update(l2)
         if not g2 and not l2:
             g2 = [f"unique{len(out)}"]
         out.append((g2, l2))
